@@ -398,6 +398,10 @@ func (ex *Exec) runPath(cs caseSpec) {
 		ex.st.addFact(pre.term(rq.Expr), "requires")
 	}
 	ex.nPreFacts = len(ex.st.facts)
+	usectx := &SpecCtx{ex: ex, vars: ex.specVars, old: ex.entry, pkg: ex.fn.Pkg}
+	for _, u := range fc.Uses {
+		ex.st.addFact(usectx.tryTerm(u), "uses")
+	}
 	// named results
 	if ex.fn.Decl.Type.Results != nil {
 		for _, f := range ex.fn.Decl.Type.Results.List {
@@ -469,7 +473,7 @@ func (ex *Exec) atReturn(results []Value) {
 		vars[k] = v
 	}
 	bindResults(vars, results)
-	ctx := &SpecCtx{ex: ex, vars: vars, old: ex.entry, pkg: ex.fn.Pkg}
+	ctx := &SpecCtx{ex: ex, vars: vars, old: ex.entry, pkg: ex.fn.Pkg, locals: ex.frames[0]}
 	// returns
 	rts := resultTypes(ex.fn)
 	for i, how := range fc.Returns {
@@ -524,9 +528,10 @@ func (ex *Exec) atReturn(results []Value) {
 		}
 		o := ex.oblige("post", en.Name, g, en.Text)
 		o.Props = en.Props
+		o.Ring = ex.mode.Name == "ring"
 		o.Hyps = append(o.Hyps, extra...)
 		for _, by := range en.By {
-			o.Hyps = append(o.Hyps, ctx.term(by))
+			o.Hyps = append(o.Hyps, ctx.tryTerm(by))
 		}
 	}
 	// derived clauses: consequences of the precondition, the (separately proved) postconditions and lemma instances
@@ -543,7 +548,7 @@ func (ex *Exec) atReturn(results []Value) {
 		o.Props = dv.Props
 		o.Hyps = append([]*Term{}, base...)
 		for _, by := range dv.By {
-			o.Hyps = append(o.Hyps, ctx.term(by))
+			o.Hyps = append(o.Hyps, ctx.tryTerm(by))
 		}
 		base = append(base, g)
 	}
